@@ -242,7 +242,38 @@ class PyVC(ExprMixin, CallMixin, StmtMixin, Engine):
             info["status"] = "undecided"
             info["error"] = "recursion limit"
         info["obligations"] = self.obligations
+        info["paths"] = self.dead_path_candidates(fid)
         return info
+
+    def dead_path_candidates(self, fid):
+        """Vacuity guard: every named path (a branch of a merge) of this function together with the largest
+        hypothesis list that mentions it.  check_path() asks the solver whether the path is *provably*
+        unreachable; such paths make every obligation on them vacuous and are reported."""
+        best = {}
+        seen_pc = set()
+        # a path is judged in the widest context that mentions it: the function's normal end, else an exceptional
+        # exit, else the end of the loop iteration it belongs to, else any other obligation
+        rank = {"post": 4, "raises": 3, "inv-preserve": 2}
+        for ob in self.obligations:
+            if ob.kind == "raises-only":
+                continue        # an exit that cannot happen is discharged by an inconsistent path: not vacuity
+            key = id(ob.pc)
+            if key in seen_pc:
+                continue
+            seen_pc.add(key)
+            names = _path_names(ob.pc)
+            score = (rank.get(ob.kind, 1), len(ob.pc))
+            for nm, term in names.items():
+                if nm not in self.path_meta:
+                    continue
+                if nm not in best or score > best[nm][2]:
+                    best[nm] = (term, ob.pc, score, ob.oid)
+        out = []
+        for nm in sorted(best, key=lambda s: int(s.split("!")[1])):
+            mfid, line, br, of = self.path_meta[nm]
+            out.append({"name": nm, "function": mfid, "line": line, "branch": br, "term": best[nm][0], "pc": best[nm][1],
+                        "context": best[nm][3]})
+        return out
 
     def verify_lemma(self, fid):
         """A contract without code: parameters are universally quantified, the
@@ -411,6 +442,49 @@ def run_cvc5(smt2, timeout_s=60):
             os.unlink(path)
         except OSError:
             pass
+
+
+def _path_names(pc):
+    names = {}
+    stack = list(pc)
+    seen = set()
+    while stack:
+        t = stack.pop()
+        i = t.get_id()
+        if i in seen:
+            continue
+        seen.add(i)
+        if z3.is_quantifier(t):
+            stack.append(t.body())
+            continue
+        if z3.is_const(t) and t.decl().kind() == z3.Z3_OP_UNINTERPRETED and t.decl().name().startswith("path!"):
+            names[t.decl().name()] = t
+        stack.extend(t.children())
+    return names
+
+
+def check_paths(vc, paths, rlimit=3000000):
+    """-> {name: 'dead' | 'live' | 'unknown'}; 'dead' = the hypotheses prove the path unreachable."""
+    out = {}
+    groups = {}
+    for p in paths:
+        groups.setdefault(id(p["pc"]), []).append(p)
+    for _k, ps in groups.items():
+        s = z3.Solver()
+        s.set("mbqi", False)
+        s.set("timeout", 20000)
+        for ax in vc.axioms():
+            s.add(ax)
+        for f in ps[0]["pc"]:
+            s.add(f)
+        for p in ps:
+            s.push()
+            s.set("rlimit", rlimit)
+            s.add(p["term"])
+            r = s.check()
+            s.pop()
+            out[p["name"]] = "dead" if r == z3.unsat else ("live" if r == z3.sat else "unknown")
+    return out
 
 
 def check_cover(vc, pcs, rlimit=RLIMIT):
